@@ -628,8 +628,16 @@ func genC19(r *world.Rng, w *world.World, big bool) {
 				// a model line of 4-16 KiB (beyond the usual buffer sizes of buffered writers), from a sparse,
 				// easily satisfied formula over many variables
 				n = r.Pick(700, 1000, 1500, 2500)
+				div := 5
+				if r.Bool(0.07) {
+					// ... and a few of several hundred KiB: more literals than a 64 Ki chunk of anything
+					// (seeded change S9-C19e printed the model in chunks of 65536 literals and restarted the
+					// numbering in every chunk)
+					n = r.Pick(65600, 70000)
+					div = 200
+				}
 				cl = nil
-				for i := 0; i < n/5; i++ {
+				for i := 0; i < n/div; i++ {
 					cl = append(cl, distinctLits(r, n, r.Pick(2, 3)))
 				}
 				cl = append(cl, []int{n * r.Pick(1, -1), r.Range(1, n-1)})
@@ -749,6 +757,12 @@ func genC19(r *world.Rng, w *world.World, big bool) {
 		if f == "-verbose" {
 			w.Sched.TickProb = []float64{0, 0.02, 0.2}[r.Intn(3)]
 		}
+	}
+	if t.N >= 60000 {
+		// the very large files are about the size of the output, not about interleavings: millions of
+		// fine-grained scheduling points would only make the world slow
+		w.Sched = world.Sched{Seed: w.Sched.Seed, Strategy: "sticky", Burst: 2000}
+		w.Knobs, w.Restarts = nil, nil
 	}
 }
 
